@@ -304,7 +304,11 @@ def main(run, tier):
                       'consecutive programs chained as several source files', m)
     run.trust('C10 (VLQ layer)', 'str.splitlines / io.StringIO / json / base64 (library contracts)',
               'the independent decoder spec/sourcemap_v3.py as the oracle')
-    run.assume('sourcemap.write and normalize_mapping_line / normalize_mappings are NOT under a deductive contract (bounded only); '
+    run.assume('under contract (E1): Bookkeeper / Names, normalize_mapping_line (lines of any length, decode view kept), sourcemap.write with '
+               'normalize off (both loops cut: every explicitly positioned piece is mapped at its generated column to its own file, line, '
+               'column and name; str.splitlines / rstrip over-approximated), encode_sourcemap and the VLQ layer; NOT under contract: '
+               'normalize_mappings (the per-line driver of normalize_mapping_line), inferred positions of unpositioned pieces, and the '
+               'composition write -> normalize -> encode -> decode as a whole: bounded stand-ins against the independent decoder',
                'well-formed stream = lineno/colno both None, both 0 or both positive, CR never split from its LF across fragments')
 
 
